@@ -27,6 +27,9 @@ type Params struct {
 	// Calls > 1: Connect is called again on the same Connection after it returned for a reason other than the
 	// context; every call starts its own schedule (InitialInterval, retry count 0, MaxElapsedTime from its start).
 	Calls int
+	// Fresh: each further call is made on a new Connection obtained from the same Client (the Client's
+	// configuration must read the same to every Connection made from it).
+	Fresh bool
 }
 
 func (p Params) Name() string {
@@ -74,6 +77,9 @@ func body(p Params) func() {
 		w.Err = conn.Connect()
 		for k := 1; k < p.Calls && !ctx.Cancelled(); k++ {
 			w.CallStarts = append(w.CallStarts, len(w.T.Attempts))
+			if p.Fresh {
+				conn = cl.NewConnection(ch.NewRequest(ctx, http.NoBody))
+			}
 			w.Err = conn.Connect()
 		}
 		w.Arms = vrt.TimerArms()
@@ -303,6 +309,9 @@ func Scenarios(tier string) []run.Scenario {
 								q2.Outcomes = outcomes[:3]
 								if mr != 0 {
 									add(q2)
+									q3 := q2
+									q3.Fresh, q3.Tag = true, "-again-newconn"
+									add(q3)
 								}
 								// the same histories as the main scenario under the other timer semantics
 								r := p
@@ -339,7 +348,7 @@ func Scenarios(tier string) []run.Scenario {
 
 var Check = &run.Check{
 	ID: "C12", Level: "model_checking",
-	Rule: "Scenarios: every combination of InitialInterval {default, 1us, 1s} x Multiplier {default, 1, 2} x Jitter {default, -1, 0.25, 0.999; also 1, 1.5, -0.5, -2 (all meaning the default) on one configuration} x MaxInterval {0, 3x initial} x MaxElapsedTime {0, 5x initial} x MaxRetries {-1, 0, 1, 3}; inside each scenario the explorer chooses every history of attempt outcomes up to the attempt bound from {transport failure, connect then drop, connect + retry field 7 / 0 / 1e12 (1e11 where the interval grows, to stay inside int64 nanoseconds) / +7 (thorough also 7x, -1, empty, two fields + read error); for Jitter -1 also a valid value followed on the same connection by empty / nameless / blank / malformed retry fields} and the random draws: 0.5 by default, with up to 1 (thorough 2) draws per execution replaced by 0 or 1-2^-53 at every position; the real Connect loop runs on the virtual clock, under the timer semantics of go 1.22 modules (a stale tick survives Reset) and, for the Jitter -1 configurations, also under those of go 1.23 (Reset and Stop discard it) (a wait of 1e12 ms costs nothing). For Jitter -1 also up to three Connect calls on one Connection. Oracle: closed-form schedule (growth, cap, reset on success, server override, limits) compared with the waits reported to OnRetry, the durations the timer was armed with, and the virtual times of the attempts.",
+	Rule: "Scenarios: every combination of InitialInterval {default, 1us, 1s} x Multiplier {default, 1, 2} x Jitter {default, -1, 0.25, 0.999; also 1, 1.5, -0.5, -2 (all meaning the default) on one configuration} x MaxInterval {0, 3x initial} x MaxElapsedTime {0, 5x initial} x MaxRetries {-1, 0, 1, 3}; inside each scenario the explorer chooses every history of attempt outcomes up to the attempt bound from {transport failure, connect then drop, connect + retry field 7 / 0 / 1e12 (1e11 where the interval grows, to stay inside int64 nanoseconds) / +7 (thorough also 7x, -1, empty, two fields + read error); for Jitter -1 also a valid value followed on the same connection by empty / nameless / blank / malformed retry fields} and the random draws: 0.5 by default, with up to 1 (thorough 2) draws per execution replaced by 0 or 1-2^-53 at every position; the real Connect loop runs on the virtual clock, under the timer semantics of go 1.22 modules (a stale tick survives Reset) and, for the Jitter -1 configurations, also under those of go 1.23 (Reset and Stop discard it) (a wait of 1e12 ms costs nothing). For Jitter -1 also up to three Connect calls on one Connection, and on three Connections made from one Client. Oracle: closed-form schedule (growth, cap, reset on success, server override, limits) compared with the waits reported to OnRetry, the durations the timer was armed with, and the virtual times of the attempts.",
 	Assumptions: []string{
 		"attempts take no virtual time; MaxElapsedTime is measured from the last successful connection (or the start of Connect), as the implementation documents",
 		"a retry value is valid iff it consists of ASCII digits; values up to 1e12 ms are used",
